@@ -69,6 +69,10 @@ pub struct Scenario {
     /// that already holds a secret is overwritten with the real one
     #[serde(default)]
     pub use_clone_from: bool,
+    /// a clone of the witness has an opening moved out of its public `openings` vector before it is
+    /// dropped: 0 = no, 1 = pop, 2 = remove(0), 3 = swap_remove(0), 4 = drain(..1), 5 = split_off(1)
+    #[serde(default)]
+    pub move_out: u8,
 }
 
 pub struct C20;
@@ -236,6 +240,20 @@ fn life_cycle(sc: &Scenario, st: &mut RunStats) -> Vec<Violation> {
         st.probe("clone_from_exercised");
         drop(scratch);
         drop(scratch_w);
+    }
+    if sc.move_out > 0 && cfg.m >= 2 {
+        // the vector's buffer holds the values inline; a moved-out slot keeps a stale image that only a
+        // wipe of the whole capacity removes
+        let mut w3 = witness.clone();
+        match sc.move_out {
+            1 => drop(w3.openings.pop()),
+            2 => drop(w3.openings.remove(0)),
+            3 => drop(w3.openings.swap_remove(0)),
+            4 => w3.openings.drain(..1).for_each(drop),
+            _ => drop(w3.openings.split_off(1)),
+        }
+        st.probe("opening_moved_out_before_drop");
+        drop(w3);
     }
     let witness2 = if sc.clone_witness { Some(witness.clone()) } else { None };
     let statement = RangeStatement::init(params.clone(), commitments.clone(), promises.clone(), seed).expect("statement");
@@ -468,6 +486,7 @@ fn lattice(tier: Tier) -> Vec<(Config, bool, Crash)> {
             Config { bits: 2, m: 1, cap: 2, ext: 5 },
             Config { bits: 8, m: 1, cap: 1, ext: 1 },
             Config { bits: 64, m: 1, cap: 1, ext: 2 },
+            Config { bits: 64, m: 2, cap: 2, ext: 1 },
             Config { bits: 2, m: 2, cap: 4, ext: 3 },
             Config { bits: 1, m: 1, cap: 1, ext: 6 },
             Config { bits: 4, m: 4, cap: 4, ext: 1 },
@@ -586,6 +605,7 @@ impl Check for C20 {
             companions,
             primary_position: rng.usize_below(4),
             use_clone_from: rng.chance(1, 2),
+            move_out: if cfg.m >= 2 && rng.chance(2, 3) { 1 + rng.below(5) as u8 } else { 0 },
         }
     }
 
@@ -668,6 +688,7 @@ impl Check for C20 {
             "several_masks_recovered_in_one_batch",
             "bit_image_registered",
             "clone_from_exercised",
+            "opening_moved_out_before_drop",
             "error_return_commitment_mismatch",
             "verifier_error_return_with_masks_live",
         ]
